@@ -166,7 +166,7 @@ func gen(t *rapid.T) Case {
 	cs.BufCap = []int{0, 1, 7, 16, 64, 4096, 100000}[rapid.IntRange(0, 6).Draw(t, "bufCap")]
 	if rapid.IntRange(0, 1).Draw(t, "bufFit") == 0 {
 		// a caller buffer just large enough for the document: the output outgrows it late
-		cs.BufCap = len(cs.Text) + rapid.IntRange(0, 24).Draw(t, "bufSlack")
+		cs.BufCap = rapid.IntRange(len(cs.Text), 6*len(cs.Text)+24).Draw(t, "bufFitCap")
 	}
 	cs.FreshPools = rapid.IntRange(0, 15).Draw(t, "freshPools") == 0
 	return cs
